@@ -289,6 +289,11 @@ def run_pipelines_with_dask(
     if outputs:
         outputs = copy(outputs)
 
+    # The (lazy) runs are made with the configuration given to this call, also when
+    # the detector, the pipeline or the readout are modified before the result is computed
+    processor = deepcopy(processor)
+    readout = deepcopy(readout)
+
     # Generate parameters for the pipelines (as a DataArray)
     if isinstance(parameter_mode, SequentialMode):
         params_dataarray: xr.DataArray = parameter_mode.create_params(
